@@ -488,12 +488,147 @@ pub async fn check_world(w: &mut World, rng: &mut Rng, mut model: Option<&mut Mo
         }
     }
 
-    // -- (5) verify_metadata decision table (model) vs the store's answers on doctored documents --------
-    // done in tamper.rs (`strip` tampers carry the model's prediction)
+    // -- (5) reverse tie: what the model writes, the store reads ------------------------------------------
+    if let Some(m) = model.as_deref_mut() {
+        model_written_objects(w, rng, m, out).await;
+    }
 
     // -- (6) nothing the store wrote contains plaintext; no nonce carries two different chunks ----------
     scan_plaintext(w, &snap, out);
     nonce_uniqueness(w, out);
+}
+
+/// Reverse tie: objects *written by the model* (nonces, chunk AAD and metadata AAD from the Lean driver,
+/// AES-GCM from the `aes-gcm` crate, document encoded by the harness) must be readable through the real
+/// store. This reaches inputs the store's own writer never produces: a base nonce whose counter wraps
+/// around, legacy `o`/`v` fields, documents without generation (payload under `data/`), without commit
+/// time, without recorded chunk size, with the legacy (empty) chunk AAD.
+pub async fn model_written_objects(w: &World, rng: &mut Rng, model: &mut ModelProc, out: &mut Outcome) {
+    use cbor2::Value;
+    let gcm = Gcm::new(w.key);
+    for variant in 0..6u64 {
+        let loc = format!("zz-model/{variant}");
+        let c = if variant == 4 { w.chunk } else { *rng.pick(&[1u64, 3, 8, 16]) };
+        let size = (rng.below(4 * c + 2)) as usize;
+        let plain = crate::world::data(rng.next_u64(), size);
+        // counter part of the base nonce close to 2^64: chunk indices wrap it around
+        let mut base = [0u8; 12];
+        for b in base.iter_mut() {
+            *b = rng.next_u64() as u8;
+        }
+        let ctr = u64::MAX - rng.below(3);
+        base[4..12].copy_from_slice(&ctr.to_le_bytes());
+        let doc = MetaDoc {
+            s: size as u64,
+            e: if variant == 1 { None } else { Some(format!("etag-{variant}")) },
+            o: if variant == 2 { Some("inner-etag".into()) } else { None },
+            v: if variant == 2 { Some("inner-version".into()) } else { None },
+            n: base.to_vec(),
+            t: vec![],
+            c: if variant == 4 { None } else { Some(c) },
+            av: match variant {
+                3 => Some(0),
+                5 => None, // sealed without av: bound AAD by default
+                _ => Some(1),
+            },
+            an: None,
+            at: None,
+            g: if variant == 2 || variant == 3 { None } else { Some(format!("{:016x}-{:08x}", 1_700_000_000_000u64 + variant, 7)) },
+            m: if variant == 0 || variant == 4 { Some(1_700_000_000_123) } else { None },
+        };
+        let mut doc = doc;
+        let mut payload = Vec::new();
+        let mut ok = true;
+        for (i, ch) in plain.chunks(c as usize).enumerate() {
+            let nonce = unhex(&model.ask(&format!("nonce {} {i}", hex(&doc.n))));
+            let aad = if doc.av == Some(0) { Some(vec![]) } else { unhex(&model.ask(&format!("caad {c} {i}"))) };
+            match (nonce, aad) {
+                (Some(n), Some(a)) => match gcm.seal(&n, &a, ch) {
+                    Some((ct, tag)) => {
+                        payload.extend_from_slice(&ct);
+                        doc.t.push(tag);
+                    }
+                    None => ok = false,
+                },
+                _ => ok = false,
+            }
+        }
+        let mut an = [0u8; 12];
+        for b in an.iter_mut() {
+            *b = rng.next_u64() as u8;
+        }
+        let aad = unhex(&model.ask(&maad_line(&loc, &doc)));
+        let Some((_, at)) = aad.as_ref().and_then(|a| gcm.seal(&an, a, &[])) else {
+            out.disagree("driver did not answer for a model-written object", "hex", "?");
+            continue;
+        };
+        if !ok {
+            out.disagree("driver did not answer for a model-written object", "hex", "?");
+            continue;
+        }
+        let mut entries: Vec<(Value, Value)> = vec![
+            (Value::Text("s".into()), Value::Integer(doc.s.into())),
+            (Value::Text("e".into()), doc.e.clone().map(Value::Text).unwrap_or(Value::Null)),
+            (Value::Text("o".into()), doc.o.clone().map(Value::Text).unwrap_or(Value::Null)),
+            (Value::Text("v".into()), doc.v.clone().map(Value::Text).unwrap_or(Value::Null)),
+            (Value::Text("n".into()), Value::Bytes(doc.n.clone())),
+            (Value::Text("t".into()), Value::Array(doc.t.iter().map(|t| Value::Bytes(t.clone())).collect())),
+        ];
+        if let Some(c) = doc.c {
+            entries.push((Value::Text("c".into()), Value::Integer(c.into())));
+        }
+        if let Some(av) = doc.av {
+            entries.push((Value::Text("av".into()), Value::Integer(av.into())));
+        }
+        entries.push((Value::Text("an".into()), Value::Bytes(an.to_vec())));
+        entries.push((Value::Text("at".into()), Value::Bytes(at)));
+        if let Some(g) = &doc.g {
+            entries.push((Value::Text("g".into()), Value::Text(g.clone())));
+        }
+        if let Some(m) = doc.m {
+            entries.push((Value::Text("m".into()), Value::Integer(m.into())));
+        }
+        let meta_bytes = metadoc::encode_value(&Value::Map(entries));
+        let payload_path = match &doc.g {
+            Some(g) => format!("gen/{loc}/{g}"),
+            None => format!("data/{loc}"),
+        };
+        w.raw_put(&payload_path, &payload).await;
+        w.raw_put(&format!("meta/{loc}"), &meta_bytes).await;
+        let cold = w.cold();
+        let o = get_collect(&cold, &loc, GetOptions::new()).await;
+        let mut impl_line = match o.err {
+            None if o.bytes == plain => "ok".to_string(),
+            None => "ok-but-other-bytes".to_string(),
+            Some(e) => e.to_string(),
+        };
+        if impl_line == "ok" && size > 1 {
+            // a ranged read and get_ranges across the wrap-around as well
+            let (s, e) = (1u64, size as u64);
+            let r = get_collect(&cold, &loc, GetOptions::new().with_range(Some(GetRange::Bounded(s..e)))).await;
+            let gr = cold.get_ranges(&Path::from(loc.as_str()), &[s..e, 0..1]).await;
+            if r.err.is_some() || r.bytes != plain[1..] {
+                impl_line = format!("ranged:{:?}", r.err);
+            }
+            match gr {
+                Ok(v) if v.len() == 2 && v[0][..] == plain[1..] && v[1][..] == plain[..1] => {}
+                Ok(_) => impl_line = "get_ranges:other-bytes".into(),
+                Err(e) => impl_line = format!("get_ranges:{}", classify(&e)),
+            }
+        }
+        out.model_compared += 1;
+        out.hit(&format!("tie:model-written-object:variant{variant}"));
+        out.eval(&format!("model-written {variant} {size} {c} {ctr}"), size > 0);
+        if impl_line != "ok" {
+            out.disagree(
+                &format!("object written with the model's nonce/AAD (variant {variant}: size={size} chunk={c} base counter={ctr:#x} av={:?} g={:?} m={:?} o={:?}) is not readable through the store", doc.av, doc.g, doc.m, doc.o),
+                "ok",
+                &impl_line,
+            );
+        }
+        w.raw_delete(&payload_path).await;
+        w.raw_delete(&format!("meta/{loc}")).await;
+    }
 }
 
 pub fn scan_plaintext(w: &World, snap: &BTreeMap<String, Vec<u8>>, out: &mut Outcome) {
@@ -534,6 +669,7 @@ pub fn nonce_uniqueness(w: &World, out: &mut Outcome) {
     // nonce -> (what it sealed)
     let mut seen: BTreeMap<Vec<u8>, (Vec<u8>, Vec<u8>, String)> = BTreeMap::new();
     let mut count = 0u64;
+    let gcm = Gcm::new(w.key);
     for h in &w.history {
         let Ok(doc) = metadoc::decode(&h.meta_bytes) else { continue };
         let c = doc.c.unwrap_or(w.chunk).max(1) as usize;
@@ -544,6 +680,14 @@ pub fn nonce_uniqueness(w: &World, out: &mut Outcome) {
                 break;
             }
             let nonce = derive_nonce(&doc.n, i as u64);
+            // the nonce set is only observable through verification: the chunk must open under the
+            // independently re-derived nonce (documented scheme: salt kept, counter + index, wrapping)
+            let mut aad = b"anda_object_store.encrypted.chunk.v1".to_vec();
+            aad.extend_from_slice(&(c as u64).to_le_bytes());
+            aad.extend_from_slice(&(i as u64).to_le_bytes());
+            if doc.av != Some(0) && gcm.open(&nonce, &aad, &h.payload_bytes[s..e], tag).is_none() {
+                out.fail(Failure::new("nonce:not-rederivable", &format!("chunk {i} of `{}` (chunk size {c}) does not open under nonce = base + {i}: the nonces in use cannot be re-derived, uniqueness cannot be established", h.loc), None, "opens under the derived nonce", "tag mismatch"));
+            }
             let sealed = (h.payload_bytes[s..e].to_vec(), tag.clone(), format!("chunk {i} of {}", h.loc));
             count += 1;
             if let Some(prev) = seen.get(&nonce) {
